@@ -72,6 +72,7 @@ var c16Decoders = []string{
 	"pkg/pgsql/server/fmessages.ParsePasswordMsg",
 	"pkg/pgsql/server/fmessages.ParseQueryMsg",
 	"pkg/database.(*db).resolveValue",
+	"pkg/verification.VerifyDocument",
 	"pkg/database.(*db).serializeTx",
 	// stream chunks
 	"pkg/stream.(*msgReceiver).Read",
@@ -88,6 +89,11 @@ var c16ProofVerifiers = map[string]bool{
 	// two boolean flags and the length of that slice, which needs path-sensitive reasoning the prover does not have)
 	"pkg/pgsql/server/fmessages.ParseParseMsg": true, "pkg/pgsql/server/fmessages.ParseExecuteMsg": true,
 	"pkg/pgsql/server/fmessages.ParseDescribeMsg": true,
+}
+
+// single-result type assertions whose operand has one possible dynamic type (one named site each, with the reason)
+var c16SafeAssertions = map[string]string{
+	"pkg/verification.VerifyDocument:type assertion#1": "sql.DecodeValue(b, BLOBType) returns a *Blob on success and Blob.RawValue() is its []byte",
 }
 
 // callee contracts: on success, 0 <= result[ret] <= len(arg)
@@ -228,6 +234,25 @@ func c16(c *Ctx) {
 	}
 	c16Run(c, "C16", c16Decoders, true)
 	c09EntryCountBounded(c, "C16.9/entry-count-bounded")
+	c16PeerMessages(c, "C16.12/peer-messages-nil-checked")
+}
+
+// c16PeerMessages: proof messages are decoded by protobuf into trees of optional sub-messages; what verification
+// dereferences (transaction, headers, dual proof, entries) must have been found present first, by a nil test on the
+// same access path or by an error-checked Validate() whose summary covers it. Scope: the verified operations of the
+// client and the auditor, document verification, and the message converters / validators of pkg/api/schema (which also
+// run server side on requests).
+func c16PeerMessages(c *Ctx, r string) {
+	var fns []*ssa.Function
+	for _, f := range c.allFns {
+		if fnInPkgs(f, []string{"pkg/client", "pkg/client/auditor", "pkg/verification", "pkg/api/schema"}) {
+			fns = append(fns, f)
+		}
+	}
+	n := c.ruleMsgFieldsNilChecked(r, fns)
+	if n < 100 {
+		c.undecided(r, "floor", fmt.Sprintf("%d dereferences of sub-messages found in the client, the auditor, pkg/verification and pkg/api/schema (131 when the rule was armed)", n))
+	}
 }
 
 // c16Run decides the bounds obligations of the given decoders (shared by C16 and, for the tx-record decoders, C09).
@@ -270,6 +295,10 @@ func c16Run(c *Ctx, pfx string, decoders []string, full bool) {
 				nta++
 				nobl++
 				construct := fmt.Sprintf("%s:type assertion#%d", fnName(g), nta)
+				if reason, ok := c16SafeAssertions[construct]; ok {
+					c.okTrivial(pfx+"/no-unchecked-type-assertion", construct, c.pos(in.Pos()), "confirmed by reading: "+reason)
+					return
+				}
 				if mi, isMI := ta.X.(*ssa.MakeInterface); isMI && types.Identical(mi.X.Type(), ta.AssertedType) {
 					c.ok(pfx+"/no-unchecked-type-assertion", construct, c.pos(in.Pos()), "asserts the type it was just built from")
 					return
